@@ -7,7 +7,7 @@
    The counters are AtomicU16 in the code: fetch_add / fetch_sub wrap, and so does the model. *)
 From W Require Import model.Base.
 
-Inductive call :=
+Inductive kcall :=
 | CRegister (id file : N)   (* BlockStateTracker::register_block(id, file) *)
 | CRegFile (file : N)       (* FileStateTracker::register_file_if_absent(file) *)
 | CAddBlock (file : N)      (* FileStateTracker::add_block_to_file_state(file) *)
@@ -88,7 +88,7 @@ Definition set_flag (t : trk) (id : N) (b : bstate) : trk :=
 (* One tracker call.  [fixed] selects set_checkpointed_true: false = the code as it is
    (every call increments the file's counter, "mark_v0"), true = the proposed idempotent
    variant (swap the flag, count only the first time). *)
-Definition trk_step (fixed : bool) (t : trk) (c : call) : trk * list N :=
+Definition trk_step (fixed : bool) (t : trk) (c : kcall) : trk * list N :=
   match c with
   | CRegister id f =>
       (match tlookup id (t_blocks t) with
@@ -120,17 +120,17 @@ Definition trk_step (fixed : bool) (t : trk) (c : call) : trk * list N :=
   end.
 
 (* state after a call sequence (chronological), and every deletion request in order *)
-Definition trk_st (fixed : bool) (h : list call) : trk :=
+Definition trk_st (fixed : bool) (h : list kcall) : trk :=
   fold_left (fun t c => fst (trk_step fixed t c)) h trk0.
 
-Fixpoint trk_run_from (fixed : bool) (t : trk) (cs : list call) : trk * list N :=
+Fixpoint trk_run_from (fixed : bool) (t : trk) (cs : list kcall) : trk * list N :=
   match cs with
   | [] => (t, [])
   | c :: r => let '(t1, o1) := trk_step fixed t c in
               let '(t2, o2) := trk_run_from fixed t1 r in (t2, o1 ++ o2)
   end.
-Definition trk_run (fixed : bool) (cs : list call) : trk * list N := trk_run_from fixed trk0 cs.
-Definition trk_requests (fixed : bool) (cs : list call) : list N := snd (trk_run fixed cs).
+Definition trk_run (fixed : bool) (cs : list kcall) : trk * list N := trk_run_from fixed trk0 cs.
+Definition trk_requests (fixed : bool) (cs : list kcall) : list N := snd (trk_run fixed cs).
 
 (* ---- the caller's side: which blocks are locked right now (multiset of ids) ---- *)
 Fixpoint remove_one (x : N) (l : list N) : list N :=
@@ -141,13 +141,13 @@ Fixpoint remove_one (x : N) (l : list N) : list N :=
 Fixpoint memN (x : N) (l : list N) : bool :=
   match l with [] => false | y :: r => (y =? x) || memN x r end.
 
-Definition lk (g : list N) (c : call) : list N :=
+Definition lk (g : list N) (c : kcall) : list N :=
   match c with
   | CLock id => id :: g
   | CUnlock id => remove_one id g
   | _ => g
   end.
-Definition locked_ids (h : list call) : list N := fold_left lk h [].
+Definition locked_ids (h : list kcall) : list N := fold_left lk h [].
 
 (* ---- counting over the block map ---- *)
 Fixpoint countN {A} (p : A -> bool) (l : list A) : N :=
@@ -176,7 +176,7 @@ Definition paired (t : trk) (f : N) : bool := regs_in t f <=? f_total (fget t f)
      - 16-bit bounds: a file's total and locked counters do not wrap (< 65536 blocks per file)
    The contract clause "a block is marked only when its entries are consumed" is about the
    engine, not about the trackers; it enters the theorems as a hypothesis on CMark. *)
-Definition pre (fixed : bool) (t : trk) (g : list N) (c : call) : bool :=
+Definition pre (fixed : bool) (t : trk) (g : list N) (c : kcall) : bool :=
   match c with
   | CRegister id _ => match tlookup id (t_blocks t) with None => true | Some _ => false end
   | CRegFile _ => true
@@ -200,17 +200,17 @@ Definition pre (fixed : bool) (t : trk) (g : list N) (c : call) : bool :=
   | CFlush f => paired t f
   end.
 
-Fixpoint contract_from (fixed : bool) (t : trk) (g : list N) (cs : list call) : bool :=
+Fixpoint contract_from (fixed : bool) (t : trk) (g : list N) (cs : list kcall) : bool :=
   match cs with
   | [] => true
   | c :: r => pre fixed t g c && contract_from fixed (fst (trk_step fixed t c)) (lk g c) r
   end.
-Definition contract_ok (fixed : bool) (cs : list call) : bool := contract_from fixed trk0 [] cs.
-Definition contract (fixed : bool) (cs : list call) : Prop := contract_ok fixed cs = true.
+Definition contract_ok (fixed : bool) (cs : list kcall) : bool := contract_from fixed trk0 [] cs.
+Definition contract (fixed : bool) (cs : list kcall) : Prop := contract_ok fixed cs = true.
 
 (* ---- mechanism-shaped classes of call sequences (known findings) ---- *)
 (* some registered block is marked while its flag is already set *)
-Fixpoint marks_repeated_from (t : trk) (cs : list call) : bool :=
+Fixpoint marks_repeated_from (t : trk) (cs : list kcall) : bool :=
   match cs with
   | [] => false
   | c :: r =>
@@ -219,10 +219,10 @@ Fixpoint marks_repeated_from (t : trk) (cs : list call) : bool :=
        | _ => false
        end) || marks_repeated_from (fst (trk_step false t c)) r
   end.
-Definition marks_repeated (cs : list call) : bool := marks_repeated_from trk0 cs.
+Definition marks_repeated (cs : list kcall) : bool := marks_repeated_from trk0 cs.
 
 (* some block id is registered while already registered (same-process reopen, second instance) *)
-Fixpoint reregistered_from (t : trk) (cs : list call) : bool :=
+Fixpoint reregistered_from (t : trk) (cs : list kcall) : bool :=
   match cs with
   | [] => false
   | c :: r =>
@@ -231,7 +231,7 @@ Fixpoint reregistered_from (t : trk) (cs : list call) : bool :=
        | _ => false
        end) || reregistered_from (fst (trk_step false t c)) r
   end.
-Definition reregistered (cs : list call) : bool := reregistered_from trk0 cs.
+Definition reregistered (cs : list kcall) : bool := reregistered_from trk0 cs.
 
 (* ---- the safety conclusion as a boolean over a trace (acceptor) ----
    For every deletion request the model emits along [cs]: the file is flagged full, every
@@ -239,7 +239,7 @@ Definition reregistered (cs : list call) : bool := reregistered_from trk0 cs.
 Definition file_safe (t : trk) (g : list N) (f : N) : bool :=
   f_full (fget t f) && (regs_in t f =? marked_in t f) && (locked_in t g f =? 0).
 
-Fixpoint trace_safe_from (fixed : bool) (t : trk) (g : list N) (cs : list call) : bool :=
+Fixpoint trace_safe_from (fixed : bool) (t : trk) (g : list N) (cs : list kcall) : bool :=
   match cs with
   | [] => true
   | c :: r =>
@@ -247,12 +247,12 @@ Fixpoint trace_safe_from (fixed : bool) (t : trk) (g : list N) (cs : list call) 
       let g1 := lk g c in
       forallb (file_safe t1 g1) o && trace_safe_from fixed t1 g1 r
   end.
-Definition c12_trace_ok (fixed : bool) (cs : list call) : bool := trace_safe_from fixed trk0 [] cs.
+Definition c12_trace_ok (fixed : bool) (cs : list kcall) : bool := trace_safe_from fixed trk0 [] cs.
 
 (* ---- several instances in one process (C13): calls tagged with the instance ---- *)
-Definition tcall := (N * call)%type.
-Definition untag (cs : list tcall) : list call := map snd cs.
-Definition proj (a : N) (cs : list tcall) : list call :=
+Definition tcall := (N * kcall)%type.
+Definition untag (cs : list tcall) : list kcall := map snd cs.
+Definition proj (a : N) (cs : list tcall) : list kcall :=
   map snd (filter (fun p => fst p =? a) cs).
 
 (* restriction of the tracker state to one side's ids and files *)
@@ -261,7 +261,7 @@ Definition restrict (pid pf : N -> bool) (t : trk) : trk :=
   {| t_blocks := filter (keyp pid) (t_blocks t);
      t_files := filter (keyp pf) (t_files t) |}.
 
-Definition call_side (pid pf : N -> bool) (c : call) : bool :=
+Definition call_side (pid pf : N -> bool) (c : kcall) : bool :=
   match c with
   | CRegister id f => pid id && pf f
   | CRegFile f | CAddBlock f | CFull f | CFlush f => pf f
@@ -294,10 +294,10 @@ Definition registers_in (cs : list tcall) (f a : N) : bool :=
 Definition never_marks (cs : list tcall) (a : N) : bool :=
   forallb (fun p => match snd p with CMark _ => negb (fst p =? a) | _ => true end) cs.
 
-Definition c12_witness_repeated_mark : list call :=
+Definition c12_witness_repeated_mark : list kcall :=
   [CRegister 1 7; CRegFile 7; CAddBlock 7; CLock 1;
    CRegister 2 7; CRegFile 7; CAddBlock 7; CLock 2;
    CUnlock 1; CUnlock 2; CFull 7; CMark 1; CMark 1].
 
-Definition c12_witness_wrap : list call :=
+Definition c12_witness_wrap : list kcall :=
   [CRegister 1 7; CRegister 2 7] ++ repeat (CAddBlock 7) (N.to_nat 65537) ++ [CFull 7; CMark 1].
